@@ -53,6 +53,15 @@ def cases(tier, seed):
         for i in range(0, len(sample), 6):
             out.append({'part': 'enum', 'n': 4, 'dags': sample[i:i + 6],
                         'seed': rng.randrange(1 << 30), 'namings': 6})
+    # the 5-node family "three bases, two of them sharing a base, one
+    # unrelated root": every order of the three bases x every naming
+    fam = [(bo, nm) for bo in itertools.permutations(range(3))
+           for nm in itertools.permutations(range(5))]
+    if tier == 'quick':
+        fam = rng.sample(fam, 96)
+    for i in range(0, len(fam), 24):
+        out.append({'part': 'family', 'items': fam[i:i + 24],
+                    'seed': rng.randrange(1 << 30)})
     # random bigger DAGs
     for i in range(16 if tier == 'quick' else 200):
         out.append({'part': 'random', 'seed': rng.randrange(1 << 30)})
@@ -409,7 +418,71 @@ def run_runs(case):
                        'order': ref and ref[0]}}
 
 
+def run_family(case):
+    import ztr_monitor
+    from zope.testrunner import runner
+    from zope.testrunner.layer import UnitTests
+    rng = random.Random(case['seed'])
+    viol = []
+    counters = {'order_calls': 0, 'perm_groups': 0, 'nontrivial_groups': 0,
+                'family_graphs': 0}
+
+    def V(rule, mech, **d):
+        if len(viol) < 6:
+            viol.append({'rule': rule, 'mech': mech, 'detail': d})
+    ev0 = ztr_monitor.COUNTERS.get('eval.order_by_bases', 0)
+    sigs = 0
+    for bo, nm in case['items']:
+        names = [NAMES[i] for i in nm]          # base, left, right, aux, top
+        for kind in ('inst', 'class'):
+            mk = (lambda n, b: Inst(n, b)) if kind == 'inst' else \
+                (lambda n, b: type(n, tuple(b) or (object,),
+                                   {'__module__': 'c10mod'}))
+            base = mk(names[0], [])
+            aux = mk(names[3], [])
+            left = mk(names[1], [base])
+            right = mk(names[2], [base])
+            three = [left, right, aux]
+            top = mk(names[4], [three[i] for i in bo])
+            pool = [base, left, right, aux, top]
+            counters['family_graphs'] += 1
+            for k in range(2, 6):
+                for sub in itertools.combinations(pool, k):
+                    counters['perm_groups'] += 1
+                    counters['nontrivial_groups'] += 1
+                    sigs += 1
+                    first = None
+                    for _p in range(6):
+                        perm = rng.sample(sub, len(sub))
+                        res = runner.order_by_bases(list(perm))
+                        counters['order_calls'] += 1
+                        ctx = {'family': 'diamond+root', 'kind': kind,
+                               'names': names, 'base_order': list(bo),
+                               'input': [x.__name__ for x in perm],
+                               'result': [x.__name__ for x in res]}
+                        judge_order(res, perm, UnitTests, V, ctx)
+                        key = [id(x) for x in res]
+                        if first is None:
+                            first = (key, ctx)
+                        elif key != first[0]:
+                            V('order-depends-on-input-order',
+                              'order-input-dependent',
+                              other=first[1]['result'], **ctx)
+    counters['monitor_evals'] = \
+        ztr_monitor.COUNTERS.get('eval.order_by_bases', 0) - ev0
+    for c, d in ztr_monitor.VIOLATIONS:
+        V('contract:' + c, 'contract-' + c, **d)
+    del ztr_monitor.VIOLATIONS[:]
+    return {'viol': viol, 'evals': counters['order_calls'],
+            'distinct_count': sigs, 'counters': counters,
+            'sample': {'family': 'diamond+root',
+                       'first': [list(case['items'][0][0]),
+                                 list(case['items'][0][1])]}}
+
+
 def run_case(case):
+    if case['part'] == 'family':
+        return run_family(case)
     if case['part'] == 'enum':
         return run_enum(case)
     if case['part'] == 'random':
